@@ -21,6 +21,7 @@ from __future__ import annotations
 
 import uuid
 import warnings
+from copy import deepcopy
 from typing import TYPE_CHECKING
 
 import numpy as np
@@ -239,8 +240,9 @@ class Concatenator(Group):  # pylint: disable=too-many-public-methods
         if (
             mask is None and new_entity.workspace != self.workspace
         ):  # Fast copy to new workspace
-            new_entity.concatenated_attributes = self.concatenated_attributes
-            new_entity.concatenated_object_ids = self.concatenated_object_ids
+            # the copy gets its own records: the two groups are edited independently
+            new_entity.concatenated_attributes = deepcopy(self.concatenated_attributes)
+            new_entity.concatenated_object_ids = list(self.concatenated_object_ids)
 
             for field in self.index:
                 values = self.workspace.fetch_concatenated_values(self, field)
